@@ -485,6 +485,20 @@ def run(ctx):
     for nodes in four:
         add("small4", nodes)
     if not quick:
+        # 5 nodes: a sample of the (32+5)^5 graphs per output regime
+        for mode in ("same", "distinct"):
+            labels5 = [L("", "n%d" % i) for i in range(5)]
+            for _ in range(40000):
+                nodes = []
+                for i in range(5):
+                    if rng.random() < 0.25:
+                        nodes.append(("a", A("", "n%d" % i, rng.choice(labels5))))
+                    else:
+                        mask = rng.randrange(32) & rng.randrange(32)
+                        nodes.append(("t", T("", "n%d" % i, [labels5[j] for j in range(5) if mask >> j & 1],
+                                             ["x" if mode == "same" else "o%d" % i])))
+                rng.shuffle(nodes)
+                add("small5", nodes)
         for nodes in rng.sample(four, 4000):
             perms = list(itertools.permutations(nodes))
             for perm in rng.sample(perms[1:], 5):
@@ -855,6 +869,8 @@ def cli_smoke(ctx, quick):
             if not valid and ok_now:
                 sig = "accepted:directory-output-outside-workspace" if name == "dir-output-escape" else "cli-accepted-invalid:" + name
                 ctx.violation("grog %s succeeds on an invalid workspace" % cmd, replay, signature=sig)
+            if not valid and not ok_now and not out.strip():
+                ctx.violation("grog %s failed on an invalid workspace without any diagnostic" % cmd, replay, signature="cli-no-diagnostic:" + name)
             if not valid and ran:
                 ctx.violation("grog %s ran commands although the graph is invalid" % cmd, replay, signature="cli-ran-on-invalid:" + name)
             if cmd == "check" and ran:
@@ -879,5 +895,14 @@ def replay(ctx, rep):
     print("impl :", x)
     print("model:", y)
     if r.get("op") == "analysis.analyze":
-        print("reference defects:", sorted(reference_defects(r)))
+        ref = reference_defects(r)
+        print("reference defects:", sorted(ref))
+        acc = x.get("verdict") == "accept"
+        if (acc and ref) or (not acc and not ref and not tests_without_command(r)):
+            print("REPRODUCED: the implementation's verdict contradicts the reference validator")
+            return 1
+        if not acc and ref and not (set(x.get("kinds", [])) - {"other", "test-no-command"}) <= {k for k, _ in ref}:
+            print("REPRODUCED: the reported defect kind is not present in the graph")
+            return 1
+        print("not reproduced on the current tree")
     return 0
